@@ -88,6 +88,99 @@ def _worker(payload):
     return out
 
 
+# rule families whose side-conditions are read from declared shapes: also run on hosts whose inputs are declared with
+# symbolic / unknown dims, the rewritten model then compared with the original for every binding of the symbols
+SYM_FAMILIES = ["expand", "reshape_family", "slices", "scatter", "matmul_gemm", "identity_ops", "casts", "clip_relu_minmax"]
+SYM_VALUES = [0, 1, 2, 3, 7]
+
+
+def _worker_sym(payload):
+    import copy
+    import itertools
+    import random
+    mb, symspec, symbols, tag, fams, rule_names, tier = payload
+    from vp.symonnx import equiv as Q
+    mp = onnx.load_from_string(mb)
+    stats = Q.Stats()
+    out = {"model": tag, "features": fams + ["symbolic"], "ops": sorted({n.op_type for n in mp.graph.node}), "records": [], "error": None,
+           "symbols": symbols, "symspec": symspec}
+    names = sorted(symbols)
+    bindings = list(itertools.product(SYM_VALUES, repeat=len(names)))
+    if tier == "quick" and len(bindings) > 12:
+        r = random.Random(hash(tag) & 0xFFFF)
+        keep = [tuple(symbols[n] for n in names)] + [b for b in bindings if len(set(b)) == 1 and b[0] in (1, 2)]
+        # bindings that set exactly one symbol to 1 / 0 (a symbol a rule took for 'not 1' or 'equal to another')
+        for i in range(len(names)):
+            for v in (1, 0):
+                keep.append(tuple(v if j == i else symbols[n] for j, n in enumerate(names)))
+        r.shuffle(bindings)
+        bindings = list(dict.fromkeys(keep + bindings[:6]))
+    dts = {i.name: i.type.tensor_type.elem_type for i in mp.graph.input}
+    try:
+        for rn in rule_names:
+            counter = [0]
+            try:
+                new = _rule_tf(rn, counter)(copy.deepcopy(mp))
+            except Exception as e:  # noqa: BLE001
+                out["records"].append({"transformation": rn, "verdict": "exception", "detail": f"{type(e).__name__}: {str(e)[:300]}", "fired": 0, "side": {}})
+                continue
+            if not counter[0]:
+                out["records"].append({"transformation": rn, "verdict": "not_fired", "fired": 0, "side": {}})
+                continue
+            for b in bindings:
+                env = dict(zip(names, b))
+                spec = [(n, dts[n], tuple(env[d] if isinstance(d, str) else d for d in dims)) for n, dims in symspec.items()]
+                rec = OC.check_model_pair(mp, spec, rn, None, stats, 3, want_sides=(b == bindings[0]), new=new)
+                rec["fired"] = counter[0]
+                rec["binding"] = env
+                if rec.get("replay_record"):
+                    rec["replay_record"]["binding"] = env
+                out["records"].append(rec)
+    except Exception as e:  # noqa: BLE001
+        import traceback
+        out["error"] = f"{type(e).__name__}: {e} {traceback.format_exc()[-1200:]}"
+    out["solver"] = stats.as_dict()
+    return out
+
+
+def dynamic_shape(tag: str) -> bool:
+    return "Shape(z" in tag
+
+
+def _sym_payloads(hosts, tier, only):
+    import random
+    from vp.props import c09 as C9
+    r = random.Random(common.seed() + 5)
+    by = {}
+    for h in hosts:
+        if h[3][0] in SYM_FAMILIES:
+            by.setdefault(h[3][0], []).append(h)
+    payloads = []
+    for fam, hs in by.items():
+        if tier == "quick":
+            r.shuffle(hs)
+            hs = [h for h in hs if dynamic_shape(h[2])] + [h for h in hs if not dynamic_shape(h[2])][:60]
+        for mb, spec, tag, fams in hs:
+            rules = [x for f in fams for x in FAMILY_RULES.get(f, [])]
+            if only:
+                rules = [x for x in rules if only in x or only in tag]
+            if not rules:
+                continue
+            modes = C9.MODES if tier == "thorough" else r.sample(C9.MODES, 2)
+            if dynamic_shape(tag) and tier == "quick":
+                # the rule can only reason from declared shapes here: the modes that keep a static 1 beside distinct symbols
+                modes = ["lead_distinct", "distinct_keep1", "shared", "lead_unnamed_vi"]
+            for mode in modes:
+                try:
+                    smb, symspec, symbols = C9.redeclare(mb, spec, mode)
+                except Exception:  # noqa: BLE001
+                    continue
+                if not symbols or len(symbols) > 3:
+                    continue
+                payloads.append((smb, symspec, symbols, f"{tag} [{mode}]", list(fams), rules, tier))
+    return payloads
+
+
 def main(tier: str, only=None) -> int:
     run = common.Run("C05", tier, "translation_validation")
     from vp.props import rulehosts as RH
@@ -113,7 +206,10 @@ def main(tier: str, only=None) -> int:
             payloads += ps[:160]
     with cf.ProcessPoolExecutor(max_workers=common.jobs()) as ex:
         results = list(ex.map(_worker, payloads, chunksize=4))
-    results = [r for r in results if not r.get("invalid_host")]
+    sym_payloads = _sym_payloads(hosts, tier, only)
+    with cf.ProcessPoolExecutor(max_workers=common.jobs()) as ex:
+        sym_results = list(ex.map(_worker_sym, sym_payloads, chunksize=2))
+    results = [r for r in results if not r.get("invalid_host")] + sym_results
     counts, solver, samples, n_pairs, n_changed, uf_models, side = C3.aggregate(run, results, "C05", want_value=True, want_sides=True)
     fired = {}
     for r in results:
@@ -145,6 +241,9 @@ def main(tier: str, only=None) -> int:
         "verdicts": counts, "queries": solver, "per_rule": fired, "rules_exported": len(exported),
         "rules_not_encoded": NOT_ENCODED_RULES, "rules_never_fired": never, "side_verdicts": side,
         "pairs_with_uninterpreted_functions": uf_models,
+        "symbolically_declared_hosts": len(sym_results),
+        "symbolic_host_rule_pairs_fired": sum(1 for r_ in sym_results if any(rec.get("fired") for rec in r_["records"])),
+        "symbolic_binding_values": SYM_VALUES,
     })
     run.assumptions += ["floats as reals; constants recomputed by a rule are compared under the forward-error bound 32u(mag1+mag2)",
                         "rules.fusion (layer norm, rms norm, rotary, gqa) need sqrt/trig identities: outside the claim",
